@@ -108,7 +108,9 @@ def parseChunk (toks : List String) : Option Chunk :=
         match r with
         | "ret" :: r2 => (parseE 64 r2).bind fun (e, r3) =>
           match r3 with
-          | ["end"] => some (.defn forced k body e)
+          | ["end"] =>
+            -- a function that calls itself is rejected: unbounded recursion cannot be run
+            if (callsFuel depthBound body ++ e.calls).contains k then none else some (.defn forced k body e)
           | _ => none
         | _ => none
     else none
